@@ -175,7 +175,7 @@ theorem C03_append_row_only_after_sync (effs : List Eff) (h : appSafe 0 false ef
   exact ⟨appSafe_prefix hl bl effs 0 false _ h hr k, appSafe_written_le hl bl effs 0 false _ h hr k⟩
 
 example : (appRun 7 3 ((Gen.dpAppendEffects.map (·.e)).take 3)) = ⟨10, 0, false, false⟩ ∧
-    (appRun 7 3 ((Gen.dpAppendEffects.map (·.e)).take 6)) = ⟨10, 10, true, true⟩ := by decide
+    (appRun 7 3 (Gen.dpAppendEffects.map (·.e))) = ⟨10, 10, true, true⟩ := by decide
 
 /-- in a store whose rows lie within their packs every fetch returns exactly `size` bytes: no reader of
 the index sees a short blob -/
@@ -409,6 +409,18 @@ theorem C03_delete_crash_states_counterexample :
     st.fetch [98, 45, 99] = .ok 3 [1, 2, 3] ∧
     (st.crashDelete [98, 45, 99] true true false).fetch [98, 45, 99] = .ok 3 [0, 0, 0] ∧
     (st.crashDelete [98, 45, 99] true true false).packs = [encodeRecord ⟨[120, 45, 48], [0, 0, 0]⟩] := by
+  decide
+
+/-- finding F-C03-3, second face: header rewritten, body and row still there.  Fetch serves the blob
+intact (as the `_partial` theorem says) and a duplicate receive is skipped – acknowledged – because
+the row is there; but the pack says "deleted": the rebuilt index and the stream do not have the
+acknowledged blob -/
+theorem C03_delete_crash_row_outlives_record_counterexample :
+    let st : Store := ⟨[encodeRecord ⟨[98, 45, 99], [1, 2, 3]⟩], [([98, 45, 99], ⟨0, 7, 3⟩)], 1000⟩
+    let st' := (st.crashDelete [98, 45, 99] true false false).receive [98, 45, 99] [1, 2, 3]
+    st'.fetch [98, 45, 99] = .ok 3 [1, 2, 3] ∧
+    (st'.reindex (fun _ => true) true true).1.fetch [98, 45, 99] = .notExist ∧
+    (streamPacks (fun _ => true) st'.packs).1 = [] := by
   decide
 
 /-- the hypotheses of `C03_delete_crash_states_partial` hold of that store (`pre = post = []`, name `b`,
